@@ -20,6 +20,7 @@ META = {
             'Session.get_pixels() (same buffer, without the conversion to tuples; cross-checked once per history). Not covered: cursor, palette and border signals '
             '(overlays/colours, not cells), DBCS code pages, the real SDL2/curses plug-ins themselves (their semantics are transcribed into the specification).',
 }
+META['text'] += ' After every statement the two character views the interpreter reports (get_chars() bytes / unicode) must agree on printable ASCII; each history has a hidden-page scroll probe (long PRINT on the bottom row of a hidden active page, then flip / PCOPY / redraw).'
 
 ADAPTER_MODES = {
     'cga': [0, 1, 2], 'ega': [0, 1, 2, 7, 8, 9], 'vga': [0, 1, 2, 7, 8, 9], 'mda': [0], 'hercules': [0, 3],
